@@ -447,7 +447,7 @@ func (t *Topic) handleMeta(msg *ClientComMessage) {
 	// Request to get/set topic metadata
 	asUid := types.ParseUserId(msg.AsUser)
 	authLevel := auth.Level(msg.AuthLvl)
-	asChan, err := t.verifyChannelAccess(msg.Original)
+	asChan, err := t.channelAccess(msg.Original, asUid)
 	if err != nil {
 		// User should not be able to address non-channel topic as channel.
 		msg.sess.queueOut(ErrNotFoundReply(msg, types.TimeNow()))
@@ -1201,13 +1201,13 @@ func (t *Topic) handleNoteBroadcast(msg *ClientComMessage) {
 		return
 	}
 
-	asChan, err := t.verifyChannelAccess(msg.Original)
+	asUid := types.ParseUserId(msg.AsUser)
+	asChan, err := t.channelAccess(msg.Original, asUid)
 	if err != nil {
 		// Silently drop invalid notification.
 		return
 	}
 
-	asUid := types.ParseUserId(msg.AsUser)
 	pud := t.perUser[asUid]
 	mode := pud.modeGiven & pud.modeWant
 	if pud.deleted {
@@ -1264,7 +1264,8 @@ func (t *Topic) handleNoteBroadcast(msg *ClientComMessage) {
 	if seq > 0 {
 		topicName := t.name
 		if asChan {
-			topicName = msg.Note.Topic
+			// The reader's subscription is stored under the chnXXX name, however the note spells it.
+			topicName = types.GrpToChn(t.name)
 		}
 
 		upd := map[string]any{}
@@ -3931,6 +3932,23 @@ func (t *Topic) verifyChannelAccess(asTopic string) (bool, error) {
 		return true, nil
 	}
 	return false, types.ErrNotFound
+}
+
+// channelAccess tells if a request by asUid addressed as asTopic is served as a channel reader's
+// request: when the name is spelled chnXXX, and also when a channel reader spells it grpXXX - the
+// cached record, the name of the stored subscription row and what the user may see are those
+// of a reader whichever way the name is spelled.
+func (t *Topic) channelAccess(asTopic string, asUid types.Uid) (bool, error) {
+	asChan, err := t.verifyChannelAccess(asTopic)
+	if err != nil {
+		return false, err
+	}
+	if !asChan && t.isChan {
+		if pud, ok := t.perUser[asUid]; ok && !pud.deleted && pud.isChan {
+			asChan = true
+		}
+	}
+	return asChan, nil
 }
 
 // Infer topic category from name.
